@@ -4,8 +4,8 @@
 // The allocator/deleter functors given to the pools log every call and never touch real
 // memory: "pointers" are ordinals 1,2,3,... shifted left by 4 (MemoryPool, shared_ptr<void> and
 // the Deleter never dereference a block).  Per allocator call the case says F(ail: throw),
-// N(ew address) or R(euse the most recently deleted address that is not outstanding, else a
-// new one).  Output never contains a raw address.
+// N(ew address) or R(euse the largest address deleted before that is not outstanding, else a
+// new one; independent of the order in which a destructor deletes its blocks).  Output never contains a raw address.
 #include <primitiv/core/error.h>
 #include <primitiv/core/memory_pool.h>
 #include <primitiv/core/numeric_utils.h>
@@ -45,8 +45,8 @@ static void *do_alloc(PoolRec *rec, std::size_t size) {
   if (c == 'F') { E->events.push_back(pre + "F"); throw AllocFail(); }
   std::uint64_t p = 0;
   if (c == 'R') {
-    for (auto it = E->deleted.rbegin(); it != E->deleted.rend(); ++it) {
-      if (*it != 0 && !E->live.count(*it)) { p = *it; break; }
+    for (auto q : E->deleted) {
+      if (q != 0 && !E->live.count(q) && q > p) p = q;
     }
   }
   if (p == 0) p = E->maxp + 1;
